@@ -1,6 +1,7 @@
 import CedarVerif.Util.Sexp
 import CedarVerif.Cedar.SchemaSyntax
 import CedarVerif.Cedar.SchemaDecl
+import CedarVerif.Cedar.SchemaDecl2
 import CedarVerif.Driver.Codec
 /-
 Driver ops of C09 (schema syntaxes):
@@ -9,6 +10,11 @@ Driver ops of C09 (schema syntaxes):
   (sty parse-entity (toks <tok>…))                       → (ok (names …sorted) (in …) <shape tyjson> (tags <tyjson>)|(notags)) | (err)
   (sty resolve "ns" (commons "q"…) (entities "q"…) (actions "ns"…) entity|common|either "name")
                                                          → (common "q") | (entity "q") | (builtin "Long") | (undefined) | (shadow)
+  (sty print-frag <frag>)                                → (toks <tok>…)            whole-fragment printer of fmt.rs
+  (sty parse-frag (toks <tok>…))                         → (ok <frag, entries and namespaces sorted>) | (err)   grammar + to_json_schema.rs
+frag   ::= (frag <ns>…)        ns ::= (ns "A::B"|"" (commons ("N" tyjson)…) (entities ("N" ent)…) (actions ("N" act)…))
+ent    ::= (std (in "q"…) <record tyjson> (tags tyjson)|(notags)) | (enum "a"…)
+act    ::= (act (in (ref "T"|none "id")…)|(noin) (applies (p "q"…) (r "q"…) tyjson)|(noapplies))
 tyjson ::= bool | long | string | (set T) | (record ("k" req|opt T)…) | (entity "A::B") | (eoc "A::B") | (ext "n") | (cref "A::B")
 tok    ::= (id "x") | (str "x") | dcolon | lt | gt | lb | rb | colon | comma | q | <any other atom>
 -/
@@ -98,7 +104,122 @@ def encResolved (env : Env) (r : Option Resolved) : String :=
     | .entity q => s!"(entity {qstrS (encQName q)})"
     | _ => "(bad-op)"
 
+
+/-! fragments -/
+namespace C09Frag
+
+def decEnt : Sexp → Option EntityKindJ
+  | .list (.atom "enum" :: cs) => (decStrs cs).map .enum
+  | .list [.atom "std", .list (.atom "in" :: ms), shape, tags] =>
+    match decStrs ms, decTyJson shape with
+    | some ms, some (.record as) =>
+      (match tags with
+        | .list [.atom "notags"] => some (.standard ⟨ms.map decQName, as, none⟩)
+        | .list [.atom "tags", t] => (decTyJson t).map fun t => .standard ⟨ms.map decQName, as, some t⟩
+        | _ => none)
+    | _, _ => none
+  | _ => none
+
+def decRef : Sexp → Option ActRef
+  | .list [.atom "ref", .atom "none", .str id] => some ⟨none, id⟩
+  | .list [.atom "ref", .str ty, .str id] => some ⟨some (decQName ty), id⟩
+  | _ => none
+
+def decAct : Sexp → Option ActionJ
+  | .list [.atom "act", m, a] =>
+    let m? : Option (Option (List ActRef)) := match m with
+      | .list [.atom "noin"] => some none
+      | .list (.atom "in" :: rs) => (rs.mapM decRef).map some
+      | _ => none
+    let a? : Option (Option ApplySpecJ) := match a with
+      | .list [.atom "noapplies"] => some none
+      | .list [.atom "applies", .list (.atom "p" :: ps), .list (.atom "r" :: rs), ctx] =>
+        (match decStrs ps, decStrs rs, decTyJson ctx with
+          | some ps, some rs, some ctx => some (some ⟨ps.map decQName, rs.map decQName, ctx⟩)
+          | _, _, _ => none)
+      | _ => none
+    match m?, a? with
+    | some m, some a => some ⟨m, a⟩
+    | _, _ => none
+  | _ => none
+
+def decEntries {α : Type} (f : Sexp → Option α) : List Sexp → Option (List (String × α))
+  | [] => some []
+  | .list [.str n, x] :: rest =>
+    (match f x, decEntries f rest with
+      | some x, some rest => some ((n, x) :: rest)
+      | _, _ => none)
+  | _ => none
+
+def decNsJ : Sexp → Option (String × NamespaceJ)
+  | .list [.atom "ns", .str n, .list (.atom "commons" :: cs), .list (.atom "entities" :: es), .list (.atom "actions" :: as)] =>
+    match decEntries decTyJson cs, decEntries decEnt es, decEntries decAct as with
+    | some cs, some es, some as => some (n, ⟨cs, es, as⟩)
+    | _, _, _ => none
+  | _ => none
+
+def decFrag : Sexp → Option FragmentJ
+  | .list (.atom "frag" :: nss) =>
+    match nss.mapM decNsJ with
+    | some l =>
+      some ⟨(l.find? (·.1 == "")).map (·.2), (l.filter (·.1 != "")).map fun x => (decQName x.1, x.2)⟩
+    | none => none
+  | _ => none
+
+def encEnt : EntityKindJ → String
+  | .enum cs => "(enum" ++ String.join (cs.map fun c => " " ++ qstrS c) ++ ")"
+  | .standard e => "(std (in" ++ String.join (e.memberOf.map fun q => " " ++ qstrS (encQName q)) ++ ") " ++ encTyJson (.record e.shape) ++ " " ++
+      (match e.tags with | some t => s!"(tags {encTyJson t})" | none => "(notags)") ++ ")"
+
+def encRef (r : ActRef) : String :=
+  "(ref " ++ (match r.ty with | some q => qstrS (encQName q) | none => "none") ++ " " ++ qstrS r.id ++ ")"
+
+def encAct (a : ActionJ) : String :=
+  "(act " ++ (match a.memberOf with | some rs => "(in" ++ String.join (rs.map fun r => " " ++ encRef r) ++ ")" | none => "(noin)") ++ " " ++
+    (match a.appliesTo with
+      | some s => "(applies (p" ++ String.join (s.principals.map fun q => " " ++ qstrS (encQName q)) ++ ") (r" ++
+          String.join (s.resources.map fun q => " " ++ qstrS (encQName q)) ++ ") " ++ encTyJson s.context ++ ")"
+      | none => "(noapplies)") ++ ")"
+
+def encEntries {α : Type} (f : α → String) (l : List (String × α)) : String :=
+  String.join ((CedarVerif.sortStrings (l.map fun x => "(" ++ qstrS x.1 ++ " " ++ f x.2 ++ ")")).map (" " ++ ·))
+
+def encNsJ (name : String) (d : NamespaceJ) : String :=
+  "(ns " ++ qstrS name ++ " (commons" ++ encEntries encTyJson d.commons ++ ") (entities" ++ encEntries encEnt d.entities ++
+    ") (actions" ++ encEntries encAct d.actions ++ "))"
+
+def encFrag (f : FragmentJ) : String :=
+  let nss := (match f.empty with | some d => [encNsJ "" d] | none => []) ++ f.named.map fun x => encNsJ (encQName x.1) x.2
+  "(frag" ++ String.join ((CedarVerif.sortStrings nss).map (" " ++ ·)) ++ ")"
+
+/-- the harness lexer names `;` `=` `[` `]` semi / eq / lk / rk -/
+def fixTok : Tok → Tok
+  | .other "semi" => .other ";" | .other "eq" => .other "=" | .other "lk" => .other "[" | .other "rk" => .other "]"
+  | t => t
+
+def unfixTok : Tok → Tok
+  | .other ";" => .other "semi" | .other "=" => .other "eq" | .other "[" => .other "lk" | .other "]" => .other "rk"
+  | t => t
+
+def handleSchemaFrag (x : Sexp) : Option String :=
+  match x with
+  | .list [.atom "sty", .atom "print-frag", f] =>
+    match decFrag f with
+    | some f => some ("(toks" ++ String.join ((printFragmentJ f).map fun k => " " ++ encTok (unfixTok k)) ++ ")")
+    | none => some "(bad-op)"
+  | .list [.atom "sty", .atom "parse-frag", .list (.atom "toks" :: ts)] =>
+    match ts.mapM decTok with
+    | some ts => some (match parseFragment (ts.map fixTok) with
+      | some f => s!"(ok {encFrag f})"
+      | none => "(err)")
+    | none => some "(bad-op)"
+  | _ => none
+end C09Frag
+
 def handleSchemaSyntax (x : Sexp) : Option String :=
+  match C09Frag.handleSchemaFrag x with
+  | some r => some r
+  | none =>
   match x with
   | .list [.atom "sty", .atom "print", t] =>
     match decTyJson t with
